@@ -38,6 +38,12 @@ impl<VM: VMBinding> SFT for LargeObjectSpace<VM> {
         self.get_name()
     }
     fn is_live(&self, object: ObjectReference) -> bool {
+        // Objects are allocated with the current mark state plus the nursery bit.  During a
+        // nursery GC, a nursery object is only live once it has been traced, which clears its
+        // nursery bit.
+        if self.in_nursery_gc && self.is_in_nursery(object) {
+            return false;
+        }
         self.test_mark_bit(object, self.mark_state)
     }
     #[cfg(feature = "object_pinning")]
@@ -325,6 +331,8 @@ impl<VM: VMBinding> LargeObjectSpace<VM> {
             self.sweep_large_pages(false);
             debug_assert!(self.treadmill.is_from_space_empty());
         }
+        // The nursery GC (if it was one) is over: objects allocated from now on are live.
+        self.in_nursery_gc = false;
     }
 
     // Allow nested-if for this function to make it clear that test_and_mark() is only executed
